@@ -99,6 +99,8 @@ TEXT = {
                    "history equals what they are sent along the history with every request that does not concern the session removed; hypotheses: no receipts (the shared queue of C19), a member "
                    "does not ask to join another session by its id (it may leave by disconnecting or by creating a session), one member only listens (the session does not end). The scheduler in front of the handlers (per-connection queues, frames) is not in that "
                    "statement; the same equivalence is measured on the real server, scheduler included, by re-running histories without the outsiders. "
+                   "Under concurrency one clause is proved on a small model (Model/Relay.lean): C03_conc_no_relay_after_leaving - for every interleaving of relays, departures and answers, a connection is sent "
+                   "nothing of a session after the answer to its join elsewhere; C03_old_relay_reaches_a_departed_member is the kernel-checked interleaving of BroadcastTo before the repair F22. "
                    "Also measured: the frame of a session drives the connections of exactly its members (after sequential events and right after concurrent blocks), and a session created "
                    "within a concurrent block is not taken out of the registry by the end of the earlier holder of its number.",
              note=_std_note + " Reuse of a session id after the earlier session ended is covered through C07_fresh_session / C10 (uuid never reused) and by the cross-session monitors.",
